@@ -1,8 +1,8 @@
 """C14 — constraint violations raise and leave the value unchanged."""
 from hist import *  # noqa
 
-THEOREMS = ["C14_unchanged", "C14_out_of_range_uint", "C14_other_width_refused", "C14_wrong_length", "C14_over_limit", "C14_index_out_of_bounds", "C14_pop_empty_append_full", "C14_invalid_selector"]
-PARTIAL = ["C14_unchanged is proved for commands on top-level views and copies (no hook); for commands through child views with a valid hook chain the unchanged-on-failure claim is covered by the correspondence and the model-free oracle (stale chains excluded, DESIGN C14)"]
+THEOREMS = ["C14_unchanged", "C14_out_of_range_uint", "C14_other_width_refused", "C14_wrong_length", "C14_over_limit", "C14_index_out_of_bounds", "C14_pop_empty_append_full", "C14_invalid_selector", "C14_unchanged_on_chain", "C14_constructor_sound", "C14_constructor_rejects", "C14_constructor_accepts_iff", "C14_valid_denotes_itself"]
+PARTIAL = ["unchanged-on-failure is proved for top-level views / copies (C14_unchanged) and for child views with a valid hook chain of any depth (C14_unchanged_on_chain); commands through STALE child views (slot popped away, union switched) are outside both theorems (and outside the property's premise as the harness reads it, DESIGN C14). The constructor theorems characterise mk on the abstract argument language (AVal / canon); Python argument spellings are tied by the correspondence"]
 COQ_IMPORTS = ["RM.Types", "RM.ModelStore", "RMR.RunH"]
 COQ_FN = "RunH.run"
 COQ_CASE_TY = "RunH.case"
